@@ -13,6 +13,7 @@ import (
 	"google.golang.org/protobuf/reflect/protoreflect"
 	"google.golang.org/protobuf/reflect/protoregistry"
 	"google.golang.org/protobuf/types/descriptorpb"
+	"google.golang.org/protobuf/types/dynamicpb"
 	"google.golang.org/protobuf/types/known/anypb"
 	"google.golang.org/protobuf/types/known/durationpb"
 	"google.golang.org/protobuf/types/known/structpb"
@@ -56,7 +57,12 @@ func resolverCombo(i int) (protodesc.Resolver, protoregistry.MessageTypeResolver
 	if fd, err := protoregistry.GlobalFiles.FindFileByPath("2.proto"); err == nil {
 		_ = subF.RegisterFile(fd)
 	}
-	switch i % 8 {
+	switch i % 10 {
+	case 8:
+		// a type resolver that itself serves dynamicpb types
+		return nil, dynamicpb.NewTypes(protoregistry.GlobalFiles), "nil/dynamic-types"
+	case 9:
+		return emptyF, dynamicpb.NewTypes(protoregistry.GlobalFiles), "empty-files/dynamic-types"
 	case 0:
 		return nil, nil, "nil/nil"
 	case 1:
@@ -171,7 +177,7 @@ func runC16(ctx *Ctx) {
 			}
 		}
 		c.Bytes = hexs(val)
-		c.Args["resolvers"] = fmt.Sprint(rapid.IntRange(0, 7).Draw(rt, "res"))
+		c.Args["resolvers"] = fmt.Sprint(rapid.IntRange(0, 9).Draw(rt, "res"))
 		return c
 	}, func(c *Case) error { return checkC16(ctx, c) })
 
@@ -264,6 +270,10 @@ func checkC16(ctx *Ctx, c *Case) error {
 				return nil
 			}
 			m = model.BuildP(t, d.ProtoReflect())
+			if digest(c.Bytes, "dynsrc")%4 == 0 {
+				m = d // the source is a dynamicpb message of the generated type's descriptor
+				ctx.Label("pack: dynamicpb source")
+			}
 			wantCanon = canonD(d.ProtoReflect())
 		}
 		opts := c16opts(c.arg("opts"))
